@@ -189,10 +189,10 @@ def relay_side(ctx):
   ctx.cov['F18_model_witness'] = [a for a, _ in res.cex]
   if res.violated != 'NoStuck':
     raise Machinery('Relay.tla with RemovalReleases = FALSE no longer shows F18')
-  cfgs = [dict(nd=1, maxq=2, mpm=5, flow=True, dynamic=False, nr=2),
+  cfgs = [dict(nd=1, maxq=2, mpm=5, flow=True, dynamic=False, nr=2, wbuf=True),     # wbuf: writes that overflow the transport's buffer pause the client inside write()
           dict(nd=1, maxq=1, mpm=1, flow=True, dynamic=False, nr=1, protocol='line'),        # low watermark 0.8 of one datapoint; plaintext client
           dict(nd=1, maxq=3, mpm=2, flow=True, dynamic=True, max_retries=1, nr=2),    # the only destination comes and goes
-          dict(nd=2, maxq=4, mpm=10, flow=True, dynamic=True, max_retries=1, nr=1),
+          dict(nd=2, maxq=4, mpm=10, flow=True, dynamic=True, max_retries=1, nr=1, wbuf=True),
           dict(nd=3, maxq=3, mpm=2, flow=True, dynamic=True, max_retries=1, nr=2)]
   if not ctx.quick:
     cfgs += [dict(nd=4, maxq=5, mpm=3, flow=True, dynamic=True, max_retries=2, nr=2, low_pct=0.5),
